@@ -393,3 +393,134 @@ package v1
 //@   ensures @C16 err == nil ==> (if a.AdmissionAuthority.Type == "" then res.AdmissionAuthority == nil else res.AdmissionAuthority != nil && gnDer(res.AdmissionAuthority) == gnSpec(a.AdmissionAuthority.Type, a.AdmissionAuthority.Name))
 //@   loop 1
 //@     invariant 0 <= idx && idx <= len(a.Admissions) && len(adms) == len(a.Admissions)
+
+// ---- declarations that encoding/json fills by reflection: every key of the documented schemas (certificate.json,
+// profile.json, extension.json) reaches the field the contracts above read it from (C03-C08, C16, C19).
+//@ type CertValidity @C04
+//@   json From "from"
+//@   json Until "until"
+//@   json Duration "duration"
+//@ type CertConfig @C03,C04,C05,C06,C19
+//@   json Alias "alias"
+//@   json Version "version"
+//@   json Profile "profile"
+//@   json SerialNumber "serialNumber"
+//@   json IssuerUniqueId "issuerUniqueId"
+//@   json SubjectUniqueId "subjectUniqueId"
+//@   json Subject "subject"
+//@   json Issuer "issuer"
+//@   json Validity "validity"
+//@   json KeyAlgorithm "keyAlgorithm"
+//@   json SignatureAlgorithm "signatureAlgorithm"
+//@   json Extensions "extensions"
+//@   json Manipulations "manipulations"
+//@ type Manipulations @C19
+//@   json Version ".version"
+//@   json OuterSigAlg ".signatureAlgorithm"
+//@   json SigValue ".signatureValue"
+//@   json TbsSig ".tbs.signature"
+//@   json TbsPubKeyAlg ".tbs.subjectPublicKey.algorithm"
+//@   json TbsPubKey ".tbs.subjectPublicKey.subjectPublicKey"
+//@ type Profile @C08,C09,C04
+//@   json ProfileName "name"
+//@   json Version "version"
+//@   json Validity "validity"
+//@   json SubjectAttributes "subjectAttributes"
+//@   json Extensions "extensions"
+//@ type AnyExtension @C06,C08
+//@   json SubjectKeyIdentifier "subjectKeyIdentifier"
+//@   json KeyUsage "keyUsage"
+//@   json SubjectAltName "subjectAlternativeName"
+//@   json BasicConstraints "basicConstraints"
+//@   json CertPolicies "certificatePolicies"
+//@   json AuthInfoAccess "authorityInformationAccess"
+//@   json AuthKeyId "authorityKeyIdentifier"
+//@   json ExtKeyUsage "extendedKeyUsage"
+//@   json AdmissionExtension "admission"
+//@   json OcspNoCheckExtension "ocspNoCheck"
+//@   json CustomExtension "custom"
+//@   json Optional "optional"
+//@   json Override "override"
+//@ type SubjectKeyIdentifier @C06,C07
+//@   json Raw "raw"
+//@   json Critical "critical"
+//@   json Content "content"
+//@ type KeyUsage @C06,C07
+//@   json Raw "raw"
+//@   json Critical "critical"
+//@   json Content "content"
+//@ type SubjectAltName @C06,C07
+//@   json Raw "raw"
+//@   json Critical "critical"
+//@   json Content "content"
+//@ type SubjAltNameComponent @C07
+//@   json Type "type"
+//@   json Name "name"
+//@ type BasicConstraintsObj @C07
+//@   json Ca "ca"
+//@   json PathLen "pathLen"
+//@ type BasicConstraints @C06,C07
+//@   json Raw "raw"
+//@   json Critical "critical"
+//@   json Content "content"
+//@ type UserNotice @C07
+//@   json Organization "organization"
+//@   json Numbers "numbers"
+//@   json Text "text"
+//@ type PolicyQualifiers @C07
+//@   json Cps "cps"
+//@   json UserNotice "userNotice"
+//@ type CertPolicy @C07
+//@   json Oid "oid"
+//@   json Qualifiers "qualifiers"
+//@ type CertPolicies @C06,C07
+//@   json Raw "raw"
+//@   json Critical "critical"
+//@   json Content "content"
+//@ type SingleAuthInfo @C07
+//@   json Ocsp "ocsp"
+//@ type AuthInfoAccess @C06,C07
+//@   json Raw "raw"
+//@   json Critical "critical"
+//@   json Content "content"
+//@ type AuthKeyIdContent @C07
+//@   json Id "id"
+//@ type AuthKeyId @C06,C07
+//@   json Raw "raw"
+//@   json Critical "critical"
+//@   json Content "content"
+//@ type ExtKeyUsage @C06,C07
+//@   json Raw "raw"
+//@   json Critical "critical"
+//@   json Content "content"
+//@ type AdmissionExtension @C06,C16
+//@   json Raw "raw"
+//@   json Critical "critical"
+//@   json Content "content"
+//@ type Admission @C16
+//@   json AdmissionAuthority "admissionAuthority"
+//@   json Admissions "admissions"
+//@ type NamingAuthority @C16
+//@   json Oid "oid"
+//@   json Url "url"
+//@   json Text "text"
+//@ type ProfessionInfo @C16
+//@   json NamingAuthority "namingAuthority"
+//@   json ProfessionItems "professionItems"
+//@   json ProfessionOids "professionOids"
+//@   json RegistrationNumber "registrationNumber"
+//@   json AddProfessionInfo "addProfessionInfo"
+//@ type SingleAdmission @C16
+//@   json AdmissionAuthority "admissionAuthority"
+//@   json NamingAuthority "namingAuthority"
+//@   json ProfessionInfos "professionInfos"
+//@ type OcspNoCheckExtension @C06,C07
+//@   json Raw "raw"
+//@   json Critical "critical"
+//@ type CustomExtension @C06
+//@   json OidStr "oid"
+//@   json Raw "raw"
+//@   json Critical "critical"
+//@ type GeneralName @C16,C07
+//@   json Type "type"
+//@   json Name "name"
